@@ -7,6 +7,8 @@ import (
 	"math/big"
 	"os"
 	"path/filepath"
+	"runtime/debug"
+	"runtime/pprof"
 	"sort"
 	"strconv"
 	"strings"
@@ -83,7 +85,16 @@ func cmdRun(args []string) {
 	panicOK := fs.Bool("panicok", false, "uncaught panics are not violations")
 	verbose := fs.Bool("v", false, "")
 	wall := fs.Int("wall", 600, "wall clock budget (s) per harness")
+	shard := fs.String("shard", "", "i/n: explore only the i-th of n shards of the path space")
+	splitDepth := fs.Int("splitdepth", 5, "number of leading decisions that define a shard")
+	cpuprof := fs.String("cpuprofile", "", "")
+	debug.SetGCPercent(800)
 	fs.Parse(args)
+	if *cpuprof != "" {
+		f, _ := os.Create(*cpuprof)
+		pprof.StartCPUProfile(f)
+		defer pprof.StopCPUProfile()
+	}
 
 	pm := map[string]int{}
 	for _, kv := range strings.Split(*params, ",") {
@@ -114,6 +125,10 @@ func cmdRun(args []string) {
 		}
 		cfg := Config{MaxBlockVisits: *maxVisits, MaxSteps: *maxSteps, MaxPaths: *maxPaths, MaxAlloc: 1 << 20,
 			PanicOK: *panicOK, Mode: *mode, Params: pm, Verbose: *verbose}
+		if *shard != "" {
+			fmt.Sscanf(*shard, "%d/%d", &cfg.ShardI, &cfg.ShardN)
+			cfg.SplitDepth = *splitDepth
+		}
 		r := runHarness(ld.prog, fn, cfg, *solverName, *timeout, time.Duration(*wall)*time.Second)
 		r.Pkg = *pkg
 		results = append(results, r)
@@ -140,6 +155,7 @@ func runHarness(prog *ssa.Program, fn *ssa.Function, cfg Config, solverName stri
 	nra := NewSolver(solverName, timeoutMs)
 	defer nra.Close()
 	work := [][]int{{}}
+	globalAccessLog, globalLocksetLabel = nil, ""
 	funcs := map[string]bool{}
 	stubs := map[string]bool{}
 	wit := map[string]bool{}
@@ -157,13 +173,25 @@ func runHarness(prog *ssa.Program, fn *ssa.Function, cfg Config, solverName stri
 		}
 		prefix := work[len(work)-1]
 		work = work[:len(work)-1]
+		if cfg.ShardN > 1 && len(prefix) >= cfg.SplitDepth && shardOf(prefix[:cfg.SplitDepth], cfg.ShardN) != cfg.ShardI {
+			continue
+		}
 		in := newInterp(prog, cfg, solver, nra)
 		in.curHarness = fn.Name()
 		in.prefix = prefix
 		rec := in.runPath(fn)
+		work = append(work, in.pending...)
+		if cfg.ShardN > 1 {
+			d := cfg.SplitDepth
+			if len(in.trace) < d {
+				d = len(in.trace)
+			}
+			if shardOf(in.trace[:d], cfg.ShardN) != cfg.ShardI {
+				continue // another shard records this path
+			}
+		}
 		res.Paths++
 		steps += in.steps
-		work = append(work, in.pending...)
 		for k := range in.funcsSeen {
 			funcs[k] = true
 		}
@@ -211,6 +239,20 @@ func runHarness(prog *ssa.Program, fn *ssa.Function, cfg Config, solverName stri
 			res.Samples = append(res.Samples, rec)
 		}
 	}
+	if globalLocksetLabel != "" {
+		vs := locksetViolations()
+		res.Obligations++
+		bl := res.ByLabel[globalLocksetLabel]
+		bl[0]++
+		if len(vs) == 0 {
+			res.Discharged++
+			bl[1]++
+		}
+		res.ByLabel[globalLocksetLabel] = bl
+		for _, v := range vs {
+			res.Violations = append(res.Violations, Obligation{Harness: fn.Name(), Label: globalLocksetLabel + ": " + shortField(v), Kind: "lockset", Verdict: "violated", Detail: v})
+		}
+	}
 	res.Steps = steps
 	res.Funcs = sortedKeys(funcs)
 	res.Stubs = sortedKeys(stubs)
@@ -221,6 +263,15 @@ func runHarness(prog *ssa.Program, fn *ssa.Function, cfg Config, solverName stri
 	res.NRA = nra.Stats
 	res.WallS = time.Since(t0).Seconds()
 	return res
+}
+
+func shardOf(p []int, n int) int {
+	h := uint32(2166136261)
+	for _, x := range p {
+		h ^= uint32(x + 1)
+		h *= 16777619
+	}
+	return int(h % uint32(n))
 }
 
 func sortedKeys(m map[string]bool) []string {
@@ -236,7 +287,7 @@ func newInterp(prog *ssa.Program, cfg Config, solver, nra *Solver) *Interp {
 	return &Interp{prog: prog, cfg: cfg, solver: solver, nra: nra,
 		globals: map[*ssa.Global]*Cell{}, initDone: map[*ssa.Package]bool{}, symNames: map[string]int{},
 		witnesses: map[string]bool{}, funcsSeen: map[string]bool{}, stubsSeen: map[string]bool{},
-		strIntern: map[string]Value{}, misc: map[string]interface{}{}}
+		strIntern: map[string]Value{}, misc: map[string]interface{}{}, constCache: map[*ssa.Const]Value{}}
 }
 
 // runPath executes the harness once under in.prefix.
